@@ -9,9 +9,9 @@
    callbacks do is an input (the k-th user callback of a run executes
    [beh k]).
 
-   [fx] selects the variant: [false] = the code as it is, [true] = the code
-   with notes/C17_fix_fs_poll_ctx.diff applied (poll_cb also tests that its
-   context is still the handle's current context). *)
+   [fx] selects the variant: [true] = the code as it is (since 834ed95 poll_cb
+   also tests that its context is still the handle's current context),
+   [false] = history, the code before 834ed95. *)
 From UV Require Import Lib.Base.
 
 Local Open Scope Z_scope.
@@ -142,7 +142,7 @@ Definition UV_EBUSY : Z := -16.
 
 Inductive op :=
 | OInit                                                   (* uv_fs_poll_init *)
-| OStart (h cb path : nat) (interval : Z) (fail : nat)    (* fail: 0 none, 1 ctx allocation, 2 uv_fs_stat *)
+| OStart (h cb path : nat) (interval : Z) (fail : nat)    (* fail: see do_start *)
 | OStop (h : nat)
 | OClose (h : nat)                                        (* uv_close *)
 | OObs
@@ -167,25 +167,24 @@ Definition close_timer (s : st) (c : nat) : st :=
 Definition is_head (s : st) (h c : nat) : bool :=
   match h_chain (geth s h) with c0 :: _ => Nat.eqb c0 c | [] => false end.
 
-(* uv_fs_poll_start, fs-poll.c:66-113 *)
+(* uv_fs_poll_start, fs-poll.c:66-118.  [fail]: 0 = nothing fails, 1 = the context allocation
+   fails, 2 = uv_fs_stat fails (the stat is submitted before uv_timer_init, so nothing refers to
+   the context yet: it is freed and that is all), 3 = history, the code before 9bc8132: uv_fs_stat
+   failed after uv_timer_init, the context was freed with its timer linked in loop->handle_queue *)
 Definition do_start (s : st) (h cb path : nat) (interval : Z) (fail : nat) : st * Z :=
   if h_active (geth s h) then (s, 0) else
+  let c := length (cs s) in
+  let nc := mkCtx h 0 (if interval =? 0 then 1 else interval) (now s) cb path zero_sb
+                  TIdle false false in
   match fail with
   | 1%nat => (s, UV_ENOMEM)
+  | 2%nat => (set_cs s (cs s ++ [c_set_freed nc]), UV_ENOMEM)
+  | 3%nat => (set_hq (set_cs s (cs s ++ [c_set_freed nc])) (hq s ++ [c]), UV_ENOMEM)
   | _ =>
-    let c := length (cs s) in
-    let nc := mkCtx h 0 (if interval =? 0 then 1 else interval) (now s) cb path zero_sb
-                    TIdle false false in
-    (* uv_timer_init links the timer into loop->handle_queue *)
-    match fail with
-    | 2%nat =>
-        (* uv_fs_stat failed: goto error; uv__free(ctx) -- the timer stays linked *)
-        (set_hq (set_cs s (cs s ++ [c_set_freed nc])) (hq s ++ [c]), UV_ENOMEM)
-    | _ =>
-        let s1 := set_hq (set_cs s (cs s ++ [c_set_inflight true nc])) (hq s ++ [c]) in
-        let s2 := set_inflight s1 (inflight s1 ++ [c]) in
-        (upd_h s2 h (fun x => h_set_active true (h_set_chain (c :: h_chain x) x)), 0)
-    end
+      (* uv_fs_stat submitted; uv_timer_init links the timer into loop->handle_queue *)
+      let s1 := set_hq (set_cs s (cs s ++ [c_set_inflight true nc])) (hq s ++ [c]) in
+      let s2 := set_inflight s1 (inflight s1 ++ [c]) in
+      (upd_h s2 h (fun x => h_set_active true (h_set_chain (c :: h_chain x) x)), 0)
   end.
 
 (* uv_fs_poll_stop, fs-poll.c:116-135 *)
